@@ -155,6 +155,8 @@ func runPanic(m *model.Model, s *ob.Set) {
 	const R = "PANIC"
 	reach := liveReachable(m)
 	counts := map[string][]string{}
+	fnOf := map[string]*ssa.Function{}
+	msgOf := map[string]string{}
 	total := 0
 	for _, fn := range m.Funcs {
 		live := m.Live(fn)
@@ -200,6 +202,7 @@ func runPanic(m *model.Model, s *ob.Set) {
 			}
 			key := name + "|" + msg
 			counts[key] = append(counts[key], pos)
+			fnOf[key], msgOf[key] = fn, msg
 		}
 	}
 	var keys []string
@@ -209,6 +212,24 @@ func runPanic(m *model.Model, s *ob.Set) {
 	sort.Strings(keys)
 	for _, k := range keys {
 		t, ok := panicTable[k]
+		if !ok && m.IsNewFunc(fnOf[k]) {
+			// a tabled internal-consistency panic that moved, with its message, into a new helper
+			// of the function it is tabled for
+			for _, caller := range m.Funcs {
+				if ok || !m.InDecimalPkg(caller) {
+					continue
+				}
+				for _, b := range caller.Blocks {
+					for _, in := range b.Instrs {
+						if cal, _ := model.Callee(in); cal == fnOf[k] {
+							if t2, ok2 := panicTable[m.FuncName(caller)+"|"+msgOf[k]]; ok2 {
+								t, ok = t2, true
+							}
+						}
+					}
+				}
+			}
+		}
 		switch {
 		case ok:
 			// the tabled argument is about the function's contract and this message, not about
